@@ -5,7 +5,9 @@ code before the repair c9128f1 is refuted on the streams of ">" and "\\").
 Correspondence L-rec: harness/src/bin/analysis.rs dumps the real PullParser events + the recipe of
 the real CooklangParser::parse; runner/analysis_main.ml runs the extracted model on the dumped
 events and prints the same structural dump.  Monitor: the statement of C06 evaluated in Rust on
-the implementation's recipe (valid or not)."""
+the implementation's recipe (valid or not); its verdict is also compared, recipe by recipe, with the
+extracted decision procedure recipe_ok_b/valid_tbl_b that Proofs/AnalysisProofs.v proves equivalent to the
+Coq statement."""
 import itertools
 import os
 import random
@@ -13,7 +15,7 @@ import random
 from vlib import common
 from vlib.common import hx, unhx
 
-DEPS = ["Base/Chars.v", "Model/PText.v", "Model/Events.v", "Model/Analysis.v"]
+DEPS = ["Base/Chars.v", "Model/PText.v", "Model/Events.v", "Model/Analysis.v", "Model/AnalysisSpec.v"]
 COMMONS = ("common_n.ml", "common_zq.ml")
 
 X_ALL = 3818
@@ -159,10 +161,71 @@ def gen_recipe(rng):
     return out
 
 
+CLEAN_NAMES = [("flour", ["flour", "Flour", "FLOUR"]), ("oat milk", ["oat milk", "Oat Milk", "OAT MILK"]),
+               ("é", ["é", "É"]), ("ss", ["ss", "SS", "ß"]), ("k", ["k", "K", "K"]), ("b", ["b", "B"]),
+               ("sauce", ["sauce", "Sauce", "./sub/sauce", "../x/Sauce"])]
+CLEAN_POTS = [("pot", ["pot", "Pot", "POT"]), ("big pan", ["big pan", "Big Pan"]), ("ı", ["ı", "I", "i"])]
+
+
+def gen_clean(rng):
+    """Well-formed recipes in which most components are references: to an earlier definition (explicit with &,
+    or implicit under `[duplicate]: reference` / `[mode]: steps`), to an earlier step or to an earlier section."""
+    ings = rng.sample(CLEAN_NAMES, rng.randint(2, 4))
+    pots = rng.sample(CLEAN_POTS, rng.randint(1, 2))
+    seen_i, seen_c = [], []
+    out = []
+    if rng.random() < 0.3:
+        out.append(rng.choice([">> [duplicate]: reference", ">> [duplicate]: ref"]))
+    n_sec = rng.randint(1, 3)
+    for si in range(n_sec):
+        if si > 0 or rng.random() < 0.4:
+            out.append(rng.choice(["= Part %d" % si, "== Part %d ==" % si, "="]))
+        if rng.random() < 0.15:
+            out.append(rng.choice([">> [mode]: steps", ">> [mode]: all", ">> [mode]: components", ">> [mode]: text",
+                                   ">> [duplicate]: new", ">> [duplicate]: reference"]))
+        n_steps = 0
+        for _ in range(rng.randint(1, 4)):
+            if rng.random() < 0.2:
+                out.append(rng.choice(["> a note", "> second note\n> on two lines", "> use @flour{} here"]))
+                continue
+            toks = []
+            for _ in range(rng.randint(1, 4)):
+                r = rng.random()
+                if r < 0.2:
+                    toks.append(rng.choice(["mix", "heat", "then add", "for a while", "and"]))
+                elif r < 0.3:
+                    toks.append(rng.choice(["~{5%min}", "~rest{1%h}", "~bake{20%min}", "~wait{2%min}"]))
+                elif r < 0.45:
+                    base, forms = rng.choice(pots)
+                    if base in seen_c and rng.random() < 0.75:
+                        toks.append("#&" + rng.choice(forms) + "{}")
+                    else:
+                        seen_c.append(base)
+                        toks.append("#" + forms[0] + rng.choice(["{}", "{1}", "{2}"]))
+                elif r < 0.6 and (n_steps > 0 or si > 0):
+                    if si > 0 and rng.random() < 0.4:
+                        tgt = rng.choice(["=%d" % rng.randint(1, si + 1), "=~%d" % rng.randint(1, si + 1)])
+                    else:
+                        tgt = rng.choice(["%d" % rng.randint(1, n_steps + 1), "~%d" % rng.randint(1, n_steps + 1)])
+                    toks.append("@&(%s)%s{}" % (tgt, rng.choice(["dough", "mix", "it"])))
+                else:
+                    base, forms = rng.choice(ings)
+                    if base in seen_i and rng.random() < 0.75:
+                        toks.append("@&" + rng.choice(forms) + rng.choice(["{}", "{}", "{1%g}", "{2}"]))
+                    elif base in seen_i and rng.random() < 0.5:
+                        toks.append("@" + rng.choice(forms) + "{}")      # implicit reference under the modes
+                    else:
+                        seen_i.append(base)
+                        toks.append("@" + forms[0] + rng.choice(["{}", "{100%g}", "{1%cup}", "{2}", "{a bit}"]))
+            out.append(" ".join(toks))
+            n_steps += 1
+    return "\n\n".join(out) + rng.choice(["", "\n"])
+
+
 def gen_cases(rng, n, ext_choices, mut_rate):
     cases = []
-    for _ in range(n):
-        s = gen_recipe(rng)
+    for k in range(n):
+        s = gen_clean(rng) if k % 2 else gen_recipe(rng)
         ext = rng.choice(ext_choices)
         conv = rng.choice([0, 1])
         mut = "-"
@@ -219,6 +282,8 @@ def check_batch(rep, st, cases, bins, runner, label):
                                                           ("valid" if r.startswith("valid=1") else "invalid"))
             if name == (("release") if "release" in outs else "debug"):
                 st["outcomes"][kind] = st["outcomes"].get(kind, 0) + 1
+                if " rc:" in r or " rs:" in r or " re:" in r:
+                    st["nontrivial"].add((s, e, c, m))
                 if m != "-":
                     st["mutated"] += 1
                     if kind == "panic":
@@ -254,15 +319,85 @@ def check_batch(rep, st, cases, bins, runner, label):
             if norm_r(mi["R"]) != norm_r(ref[i]["R"]):
                 st["disagreements"].append((s, {"input": s, "input_hex": hx(s), "extensions": e, "converter": c,
                                                 "mutation": m, "impl": ref[i]["R"][:800], "model": mi["R"][:800]}))
+            # the Rust monitor against the decision procedure of the Coq statement (recipe_ok_b_spec,
+            # valid_tbl_b_spec) on the same recipe: they must accept and reject the same recipes (the
+            # monitor's `unlisted_*` tags are the only clauses the Coq statement does not have)
+            pv = mi.get("P", "-")
+            if pv != "-" and norm_r(mi["R"]) == norm_r(ref[i]["R"]):
+                core = [t for t in ref[i]["V"].split(",") if t != "-" and not t.startswith("unlisted_")]
+                st["monitor_vs_decider"] += 1
+                if pv == "0":
+                    st["decider_rejects"] += 1
+                if (pv == "1") != (not core):
+                    st["disagreements"].append((s, {"input": s, "input_hex": hx(s), "extensions": e, "converter": c,
+                                                    "mutation": m, "what": "the Rust monitor and the proved decision "
+                                                    "procedure recipe_ok_b/valid_tbl_b disagree on the same recipe",
+                                                    "monitor": ref[i]["V"], "decider": pv, "impl": ref[i]["R"][:800]}))
         if len(st["samples"]) < 4 and label == "generated" and i % 997 == 3:
             st["samples"].append({"input": s, "ext": e, "conv": c, "mut": m, "impl": ref[i]["R"][:400]})
+
+
+SELFTEST_RECIPE = "@b{} @a{} #pot{} ~{1%min}\n\n> note\n\n@&a{} #&pot{} @&(1)c{}\n\n= S\n\n@&(=1)d{} x\n"
+NTAMPER = 16
+MONITOR_TAGS = ["index_range", "document_order", "ingredient_relation", "cookware_relation", "step_reference",
+                "section_reference", "step_numbers", "empty_step", "empty_text", "empty_text_item", "empty_section",
+                "timer", "valid_reference"]
+
+
+def self_test(st, rng, bins, runner, n):
+    """Damage real recipes after the fact (harness mutation j<k>) and require that the Rust monitor and the
+    proved decision procedure of the Coq statement give the same verdict on every damaged recipe."""
+    cases = [(SELFTEST_RECIPE, X_ALL, 1, "j%d" % k) for k in range(NTAMPER)]
+    for k in range(n):
+        cases.append((gen_clean(rng) if k % 4 else gen_recipe(rng),
+                      rng.choice([X_ALL, X_ALL, X_ALL, 0, 2050 | 64]), rng.choice([0, 1]),
+                      "j%d" % rng.randint(0, NTAMPER - 1)))
+    lines = ["%s %d %d %s" % (hx(s), e, c, m) for (s, e, c, m) in cases]
+    exe = bins["release"] if "release" in bins else bins["debug"]
+    outs = [split_fields(l) for l in common.run_lines(exe, lines, tag="impl-selftest")]
+    idx, dlines = [], []
+    for i, f in enumerate(outs):
+        r = f.get("R", "")
+        if not r.startswith("tampered="):
+            continue
+        head, valid, rest = r.split(" ", 2)
+        idx.append((i, head.split("=")[1]))
+        dlines.append("D %s %s OR %s" % (valid.split("=")[1], rest, f["OR"]))
+    pout = common.run_lines(runner, dlines, tag="model-selftest") if dlines else []
+    t = {"cases": len(cases), "damaged": 0, "rejected_by_both": 0, "accepted_by_both": 0, "by_damage": {},
+         "monitor_tags_fired": {}}
+    for (i, name), pl in zip(idx, pout):
+        f = outs[i]
+        core = [g for g in f["V"].split(",") if g != "-" and not g.startswith("unlisted_")]
+        accepted = pl.strip() == "P 1"
+        if name != "none":
+            t["damaged"] += 1
+            d = t["by_damage"].setdefault(name, {"applied": 0, "rejected": 0})
+            d["applied"] += 1
+            d["rejected"] += 0 if accepted else 1
+        for g in core:
+            t["monitor_tags_fired"][g] = t["monitor_tags_fired"].get(g, 0) + 1
+        if accepted != (not core):
+            s, e, c, m = cases[i]
+            st["disagreements"].append((s, {"input": s, "input_hex": hx(s), "extensions": e, "converter": c,
+                                            "mutation": m, "damage": name,
+                                            "what": "monitor self-test: the Rust monitor and the proved decision "
+                                                    "procedure disagree on a damaged recipe",
+                                            "monitor": f["V"], "decider": pl.strip(), "recipe": f["R"][:800]}))
+        elif accepted:
+            t["accepted_by_both"] += 1
+        else:
+            t["rejected_by_both"] += 1
+    t["monitor_tags_never_fired"] = [g for g in MONITOR_TAGS if g not in t["monitor_tags_fired"]]
+    st["selftest"] = t
 
 
 def new_stats():
     return {"cases": 0, "compared": 0, "monitor_hits": [], "disagreements": [], "outcomes": {},
             "parser_panics_debug": 0, "parser_panics_release": 0, "parser_panic_samples": [],
             "mutated": 0, "mutated_collector_panics": 0, "oracle_insane": 0,
-            "monitor_fired_outside_hypothesis": 0,
+            "monitor_fired_outside_hypothesis": 0, "monitor_vs_decider": 0, "decider_rejects": 0,
+            "nontrivial": set(),
             "debug_release_diff": 0, "debug_release_samples": [], "samples": []}
 
 
@@ -317,6 +452,9 @@ def run(rep, tier, seed):
     small = [(s, X_ALL, 1, "-") for s in enum_strings(SIGMA, 3 if tier == "quick" else 4)]
     check_batch(rep, st, small, {"debug": bins["debug"]}, runner, "enum-debug")
 
+    # 4. the monitor can fail, and fails exactly where the Coq statement does: damaged recipes
+    self_test(st, rng, bins, runner, 2000 if tier == "quick" else 20000)
+
     hits = st["monitor_hits"]
     common.decide(rep, "C06", "L-rec", audit, hits, st["disagreements"], tier,
                   "correspondence Model/Analysis.v <-> src/analysis/event_consumer.rs")
@@ -327,19 +465,29 @@ def run(rep, tier, seed):
                           "parser_shaped of C06_reachable is checked on every dumped stream")
     rep.coverage.update({
         "evaluations": st["cases"], "compared_with_model": st["compared"],
+        "distinct_nontrivial": len(st["nontrivial"]),
+        "nontrivial_rule": "distinct (input, extensions, converter, mutation) whose returned recipe contains at least "
+                           "one reference relation (to a component, a step or a section)",
         "exhaustive": True,
-        "rule": "corpus + witnesses under 10 extension sets x 2 converters on both builds; %d seeded dense-reference "
+        "rule": "corpus + witnesses under 10 extension sets x 2 converters on both builds; %d seeded recipes, half of "
+                "them well-formed with most components being references (explicit, implicit under the duplicate/steps "
+                "modes, to steps and to sections, names differing in case), half noisy dense-reference "
                 "recipes (3-5 names reused, all modifiers, aliases, notes, intermediate references in and out of "
                 "range, mode and duplicate switches, text blocks, sections, timers, front matter, inline "
                 "quantities) under %d extension sets and both converters on both builds, 12%% of them as malformed "
                 "streams (one event dropped/duplicated/swapped, fed to analysis::parse_events); every string over "
                 "the %d symbols %r up to length %d with all extensions (and up to length %d with none and with "
-                "component modifiers only) on the release build, up to length %d on the debug build"
+                "component modifiers only) on the release build, up to length %d on the debug build; monitor "
+                "self-test: recipes of the real parser damaged after the fact in 16 ways (one per conjunct of the "
+                "statement), verdict of the Rust monitor compared with the extracted recipe_ok_b/valid_tbl_b"
                 % (n_gen, len(set(exts)), len(SIGMA), "".join(SIGMA), bound, bound - 1, 3 if tier == "quick" else 4),
         "enumerated": n_enum + len(small),
         "outcomes": st["outcomes"], "mutated_streams": st["mutated"],
         "mutated_collector_panics": st["mutated_collector_panics"],
         "monitor_fired_on_malformed_streams": st["monitor_fired_outside_hypothesis"],
+        "monitor_compared_with_proved_decider": st["monitor_vs_decider"],
+        "recipes_rejected_by_both": st["decider_rejects"],
+        "monitor_selftest": st.get("selftest", {}),
         "parser_panics": {"debug": st["parser_panics_debug"], "release": st["parser_panics_release"],
                           "samples": st["parser_panic_samples"]},
         "debug_release_differences": st["debug_release_diff"], "debug_release_samples": st["debug_release_samples"],
